@@ -1360,7 +1360,9 @@ impl SideMetadataSpec {
 
             // If we find non-zero value, just call back.
             if !unsafe { self.load::<T>(cursor).is_zero() } {
-                visit_data(cursor);
+                // Report the lowest address of the region, as documented (the cursor is not
+                // region-aligned if `data_start_addr` is not).
+                visit_data(cursor.align_down(region_bytes));
             }
             cursor += region_bytes;
         }
